@@ -30,9 +30,10 @@ Expected(e) ==
     [] e.op = "ZDur.round" -> ZRoundRel(Z(e), e.args.t, e.args.recv, St(e).largest, St(e).smallest, St(e).inc, St(e).mode)
     [] e.op = "ZDur.total" -> ZTotalRel(Z(e), e.args.t, e.args.recv, e.args.unit)
     [] e.op = "ZDur.compare" -> ZCompareRel(Z(e), e.args.t, e.args.recv, e.args.other)
-    [] e.op = "Zoned.hoursInDay" -> LET n == DayLength(Z(e), e.args.t) IN IF n % 3600 = 0 THEN Ok(n \div 3600) ELSE [kind |-> "any"]
+    [] e.op = "Zoned.hoursInDay" -> LET n == DayLength(Z(e), e.args.t) IN IF n % 3600 = 0 THEN Ok(n \div 3600) ELSE [kind |-> "within", lo |-> n \div 3600, hi |-> n \div 3600 + 1]
 Matches(e) == LET x == Expected(e)
               IN IF x.kind = "any" THEN e.out.kind \in {"ok", "range"}
+                 ELSE IF x.kind = "within" THEN e.out.kind = "ok" /\ e.out.val \in x.lo..x.hi   \* an integer-typed answer to a fractional quantity: one of the two neighbouring integers
                  ELSE IF e.op = "ZDur.total" /\ x.kind = "ok" THEN e.out.kind = "ok" /\ F64Approximates(e.out.val.m, e.out.val.e, FromInt(x.val.n), FromInt(x.val.d))
                  ELSE x = e.out
 ZoneTag(z) == (IF NT(z) = 0 THEN "fixed" ELSE IF \E i \in 1..NT(z) : AbsI(SegOff(z, i) - SegOff(z, i - 1)) > 3 * 3600 THEN "big-jump" ELSE "small-jump")
